@@ -82,7 +82,8 @@ Init == /\ pc = "start"
            \/ \E f \in ClipFiles : \E h \in Hists : c = WithHist(Mk("rec", f, 0, 0, "rec", 0, 0, 0), h)
            \/ \E f \in ClipFiles : \E e \in 0..MaxTick(f) : \E s \in 0..e : c = Mk("clip", f, s, e, "clip", 0, 0, 0)
            \/ \E f \in DeclFiles : c = WithDecl(Mk("rec", f, 0, 0, "rec", 0, 0, 0), f[7])
-           \/ \E f \in DeclFiles : \E e \in 0..MaxTickD(f) : \E s \in 0..e : c = WithDecl(Mk("clip", f, s, e, "clip", 0, 0, 0), f[7])
+           \/ \E f \in DeclFiles : \E e \in 0..MaxTickD(f) : \E s \in 0..e :        \* (every third clip; all on/off-boundary combinations remain)
+                 (s + 2 * e) % 3 = 0 /\ c = WithDecl(Mk("clip", f, s, e, "clip", 0, 0, 0), f[7])
            \/ \E f \in ClipFiles : \E e \in 0..MaxTick(f) : \E s \in 0..e : \E h \in Hists :
                  (s + 3 * e) % HistStride = 0 /\ c = WithHist(Mk("clip", f, s, e, "clip", 0, 0, 0), h)
            \/ \E f \in SpecSrcs : \E w \in 1..MaxW : \E h \in 1..(2 * w) :
